@@ -12,9 +12,10 @@ namespace C20
 open Settings Gen.Settings
 
 /-- A program over restoring classes leaves the store exactly as it found it — on every exit path
-(`raised` or not), for every store, every argument, every nesting depth. -/
-theorem scoped_of_restores (p : Prog) (hp : ∀ d ∈ p.classes, Restores d) :
-    ∀ (σ : Store) (tr : List Store), (p.run σ tr).store = σ := by
+(`raised` or not), for every store, every argument, every nesting depth, with or without warnings
+escalated to exceptions. -/
+theorem scoped_of_restores (strict : Bool) (p : Prog) (hp : ∀ d ∈ p.classes, Restores d) :
+    ∀ (σ : Store) (tr : List Store), (p.run strict σ tr).store = σ := by
   induction p with
   | skip => intro σ tr; rfl
   | probe => intro σ tr; rfl
@@ -31,26 +32,31 @@ theorem scoped_of_restores (p : Prog) (hp : ∀ d ∈ p.classes, Restores d) :
     intro σ tr
     have hd : Restores d := hp d (by simp [Prog.classes])
     have hb : ∀ d' ∈ body.classes, Restores d' := fun d' h => hp d' (by simp [Prog.classes, h])
-    obtain ⟨h0, h1⟩ := hd σ args
+    obtain ⟨h0, h1⟩ := hd σ args strict
     simp only [Prog.run]
     split
     · exact h0
     · rename_i hr0
-      obtain ⟨he, hx, hs⟩ := h1 (by simpa using hr0)
-      simp only [he, Bool.false_eq_true, ↓reduceIte]
-      rw [ih hb]
-      exact hs
+      obtain ⟨he, hx⟩ := h1 (by simpa using hr0)
+      split
+      · rename_i hr1
+        exact he hr1
+      · rename_i hr1
+        obtain ⟨_, hs⟩ := hx (by simpa using hr1)
+        rw [ih hb]
+        exact hs
 
-/-- **scoped** (the property's first clause) — for every well-nested program over the generated class table (minus the classes listed
-in `partialIds`, which live outside /repo), every initial store and every exit path. -/
-theorem scoped_generated (p : Prog) (hp : ∀ d ∈ p.classes, d ∈ classes ∧ d.id ∉ partialIds)
-    (σ : Store) (tr : List Store) : (p.run σ tr).store = σ :=
-  scoped_of_restores p (fun d hd => restores_all d (hp d hd).1 (hp d hd).2) σ tr
+/-- **scoped** (the property's first clause) — for every well-nested program over the generated class table
+(minus the classes listed in `partialIds`, which live outside /repo), every initial store and every exit path. -/
+theorem scoped_generated (strict : Bool) (p : Prog) (hp : ∀ d ∈ p.classes, d ∈ classes ∧ d.id ∉ partialIds)
+    (σ : Store) (tr : List Store) : (p.run strict σ tr).store = σ :=
+  scoped_of_restores strict p (fun d hd => restores_all d (hp d hd).1 (hp d hd).2) σ tr
 
 /-- An exception raised in the body still propagates (no generated `__exit__` swallows it). -/
-theorem raise_propagates (d : ClassDesc) (args : Frame) (σ : Store) (tr : List Store) (q : Prog)
-    (hq : (q.run ((execAll (execAll ⟨σ, fun _ => none, args⟩ d.m.init).1 d.m.enter).1.store) tr).raised = true) :
-    ((Prog.withC d args q).run σ tr).raised = true := by
+theorem raise_propagates (strict : Bool) (d : ClassDesc) (args : Frame) (σ : Store) (tr : List Store) (q : Prog)
+    (hq : (q.run strict ((execAll (execAll ⟨σ, fun _ => none, args, strict⟩ d.m.init).1 d.m.enter).1.store) tr).raised
+      = true) :
+    ((Prog.withC d args q).run strict σ tr).raised = true := by
   simp only [Prog.run]
   split
   · rfl
@@ -61,10 +67,10 @@ theorem raise_propagates (d : ClassDesc) (args : Frame) (σ : Store) (tr : List 
 /-- **innermost wins** — inside `with d(args): q; probe`, whatever well-nested program `q` ran before
 (without raising), the probe sees exactly the store `__enter__` produced; together with the generated
 `entered_*` theorems (observer = argument) this is "the innermost active block determines the value". -/
-theorem innermost_visible (d : ClassDesc) (args : Frame) (q : Prog) (σ σ' : Store)
-    (hq : ∀ d' ∈ q.classes, Restores d') (he : enteredStore d args σ = some σ')
-    (hn : (q.run σ' []).raised = false) :
-    ((Prog.withC d args (.seq q .probe)).run σ []).trace.head? = some σ' := by
+theorem innermost_visible (strict : Bool) (d : ClassDesc) (args : Frame) (q : Prog) (σ σ' : Store)
+    (hq : ∀ d' ∈ q.classes, Restores d') (he : enteredStore d args σ strict = some σ')
+    (hn : (q.run strict σ' []).raised = false) :
+    ((Prog.withC d args (.seq q .probe)).run strict σ []).trace.head? = some σ' := by
   simp only [enteredStore] at he
   simp only [Prog.run]
   split at he
@@ -72,10 +78,10 @@ theorem innermost_visible (d : ClassDesc) (args : Frame) (q : Prog) (σ σ' : St
   · split at he
     · exact absurd he (by simp)
     · rename_i h0 h1
-      have hs : (execAll (execAll ⟨σ, fun _ => none, args⟩ d.m.init).1 d.m.enter).1.store = σ' := by
+      have hs : (execAll (execAll ⟨σ, fun _ => none, args, strict⟩ d.m.init).1 d.m.enter).1.store = σ' := by
         simpa using he
       simp only [h0, h1, ↓reduceIte, hs, hn, Bool.false_eq_true]
-      simp [scoped_of_restores q hq σ' []]
+      simp [scoped_of_restores strict q hq σ' []]
 
 /-- Outside all blocks every setting reports its documented default: the defaults parsed from the class
 docstrings equal the initial values of the class fields (finite table, kernel-evaluated). -/
@@ -89,9 +95,9 @@ theorem cholesky_jitter_restores_partial (σ : Store) (args : Frame)
     (h4 : (σ cid_cholesky_jitter fid__global_float_value).isSome)
     (h5 : (σ cid_cholesky_jitter fid__global_double_value).isSome)
     (h6 : (σ cid_cholesky_jitter fid__global_half_value).isSome) :
-    (Prog.run (.withC c_cholesky_jitter args .skip) σ []).store = σ := by
+    (Prog.run false (.withC c_cholesky_jitter args .skip) σ []).store = σ := by
   simp only [Prog.run, c_cholesky_jitter, execAll, Stmt.exec, Expr.eval, setF_apply, Nat.reduceEqDiff, ↓reduceIte,
-    if_true, if_false, ite_fst, ite_snd, ite_env_store, ite_env_self, ite_env_args, ite_self, ite_fun_apply,
+    if_true, if_false, ite_fst, ite_snd, ite_env_store, ite_env_self, ite_env_args, ite_env_strict, ite_self, ite_fun_apply,
     Bool.false_eq_true]
   apply store_ext; intro c f
   simp only [setS_apply, ite_fun_apply]
@@ -101,7 +107,7 @@ theorem cholesky_jitter_restores_partial (σ : Store) (args : Frame)
 /-- Concrete witness (the known finding): from the initial store, `with cholesky_jitter(half_value=a): pass`
 leaves the half field set although it was `None` before. -/
 theorem cholesky_jitter_not_restores :
-    (Prog.run (.withC c_cholesky_jitter (fun p => if p = fid_half_value then some 2 else none) .skip)
+    (Prog.run false (.withC c_cholesky_jitter (fun p => if p = fid_half_value then some 2 else none) .skip)
       (initialStore classes) []).store cid_cholesky_jitter fid__global_half_value
       ≠ initialStore classes cid_cholesky_jitter fid__global_half_value := by decide +kernel
 
@@ -113,8 +119,8 @@ def demo : Prog :=
     (.seq .probe (.withC c_min_variance (fun p => if p = fid_half_value then some 8 else none) (.seq .probe .raise)))
 
 example : ∀ d ∈ demo.classes, d ∈ classes ∧ d.id ∉ partialIds := by decide +kernel
-example : (demo.run (initialStore classes) []).raised = true := by decide +kernel
-example : ((demo.run (initialStore classes) []).trace.map fun s => s cid_min_variance fid__global_half_value)
+example : (demo.run true (initialStore classes) []).raised = true := by decide +kernel
+example : ((demo.run true (initialStore classes) []).trace.map fun s => s cid_min_variance fid__global_half_value)
     = [some 8, some 17] := by decide +kernel
 
 end C20
